@@ -124,8 +124,22 @@ class L2Domain:
         return False
 
     def on_call(self, it, fn, args, kwargs):
-        if fn.name.startswith('__') and not fn.name.endswith('__'):
+        if not (fn.name.startswith('__') and fn.name.endswith('__')):
             self.ctx.event('call', callee=fn, args=list(args), kwargs=dict(kwargs))
+
+    def wrap_comprehension(self, it, node, out):
+        """[f(j) for j in range(m)] with a symbolic m was evaluated for one representative j: the list has m elements"""
+        import ast as _ast
+        if len(node.generators) == 1 and len(out) == 1:
+            g = node.generators[0]
+            try:
+                itv = it.ev(g.iter)
+            except Exception:
+                return out
+            if isinstance(itv, SymRange):
+                n = simp(Size.of(itv.hi, self.ctx.atoms) - itv.lo)
+                return SymList(out[0], n)
+        return out
 
     def on_branch(self, it, node, v, outcome):
         self.ctx.event('branch', outcome=outcome, decided=False, expr=v.tags.get('expr') if isinstance(v, Arr) else None, value=v, test=node)
@@ -159,6 +173,14 @@ class L2Domain:
         if isinstance(x, SymRange):
             return iter([SymIdx(x.lo, x.hi)])
         return None
+
+
+class SymList(list):
+    """a list of symbolic length n whose elements all look like `elem` (one representative)"""
+
+    def __init__(self, elem, n):
+        list.__init__(self, [elem])
+        self.elem, self.n = elem, n
 
 
 class TTSpec:
